@@ -82,6 +82,12 @@ def check(world) -> Dict[str, Any]:
         total = sum(e.weight for e in crit)
         if float(bd["duration"].sum()) != float(total):
             viol.append(("breakdown/durations-do-not-add-up-to-path-weight", dict(ctx, got=float(bd["duration"].sum()), expected=total)))
+        # the weight of the reported path as the graph itself weighs it (what the longest-path search maximised)
+        pn = list(g.critical_path_nodes)
+        total_graph = sum(g.edges[u, v]["weight"] for u, v in zip(pn, pn[1:]))
+        if float(bd["duration"].sum()) != float(total_graph):
+            viol.append(("breakdown/durations-do-not-add-up-to-the-weight-of-the-path-in-the-graph",
+                         dict(ctx, got=float(bd["duration"].sum()), expected=float(total_graph))))
         # rows as multiset (event, duration, type, bound_by)
         exp_rows = []
         for e in crit:
